@@ -170,6 +170,21 @@ def step (w : World) (tok : String) : Option (World × String) :=
       match ({ c with roc := roc, last := some p.hdr.seq } : Ctx).protectRtp S p with
       | (.ok b, _) => some ({ w with slots := w.slots.push b }, showBytes b)
       | (.error e, _) => some ({ w with slots := w.slots.push [] }, showErr e)
+  | ["xp", si, roc, hx] => do
+    -- raw plaintext RTP (the P bit may disagree with the padding), independent sender at `roc`
+    let s ← w.sess[← si.toNat?]?
+    let roc ← roc.toNat?
+    let plain ← unhex hx
+    match parseHdr plain with
+    | .error _ => some ({ w with slots := w.slots.push [] }, showErr .internal)
+    | .ok (h, p, body) =>
+      match Ctx.new S h.ssrc s.profile s.txMk s.txMs 0 with
+      | .error _ => some ({ w with slots := w.slots.push [] }, showErr .internal)
+      | .ok c =>
+        let hb := writeHdr h p
+        let b := if c.profile = Profile.gcm then hb ++ S.aeadSeal c.rtp.ck (gcmNonce c.rtp.salt c.ssrc h.seq roc) hb body
+          else hb ++ cmBody S c h.seq roc body ++ rtpTag S c hb (cmBody S c h.seq roc body) roc
+        some ({ w with slots := w.slots.push b }, showBytes b)
   | ["xc", si, e, idx, hx] => do
     let s ← w.sess[← si.toNat?]?
     let idx ← idx.toNat?
